@@ -2102,6 +2102,11 @@ func (l *Loader) loadByContext(ctx context.Context, source DataSource, fetchItem
 		}
 
 		if item.err != nil {
+			if ctx.Err() == nil && (errors.Is(item.err, context.Canceled) || errors.Is(item.err, context.DeadlineExceeded)) {
+				// The leader's own request ended (client disconnect, timeout) while ours is alive:
+				// its context error says nothing about the subgraph, so load on our own.
+				return l.loadByContextDirect(ctx, source, headers, input, res)
+			}
 			return item.err
 		}
 
